@@ -129,7 +129,7 @@ def ctor_guards(fn, params):
     return defaults, '(' + acc + ')'
 
 
-def translate(repo):
+def translate(repo, only=None):
     src = os.path.join(repo, 'src', 'libertem_blobfinder')
     out = ['(* GENERATED by harness/translate_q.py from %s -- do not edit *)' % src,
            'From Coq Require Import QArith Qround Qabs Qminmax Bool ZArith.',
@@ -274,7 +274,8 @@ def translate(repo):
         out.append('Definition gen_us_corr_center (n : Q) : Q := inject_Z (Qceiling (n / 2)).')
 
     for t in (t_circular, t_bgsub, t_crop_size, t_rgbs_map, t_bin, t_rgbs, t_within, t_calc, t_fullmatch, t_upsample):
-        do(t)
+        if only is None or t.__name__ in only:
+            do(t)
     return '\n'.join(out) + '\n', problems
 
 
